@@ -20,19 +20,6 @@ HiBits == NP - LoBits
 Bit(m, e) == (m \div (2 ^ (e - 1))) % 2 = 1
 EdgesOfMask(m) == LET K(p) == Bit(m, Index(Pairs, p)) IN SelectSeq(Pairs, K)
 
-VARIABLES phase, hi, es
-vars == <<phase, hi, es>>
-
-InitMask == phase = "seed" /\ hi \in 0..(2 ^ HiBits - 1) /\ es = << >>
-NextMask == /\ phase = "seed" /\ phase' = "case" /\ UNCHANGED hi
-            /\ \E lo \in 0..(2 ^ LoBits - 1) : es' = EdgesOfMask(hi * (2 ^ LoBits) + lo)
-
-RECURSIVE InjSeqs(_)
-InjSeqs(S) == {<< >>} \cup UNION {{<<x>> \o s : s \in InjSeqs(S \ {x})} : x \in S}
-InitSeq == phase = "seed" /\ hi \in 1..NP /\ es = << >>
-NextSeq == /\ phase = "seed" /\ phase' = "case" /\ UNCHANGED hi
-           /\ \E s \in InjSeqs(PairSet \ {Pairs[hi]}) : es' = <<Pairs[hi]>> \o s
-
 \* ------------------------------------------------------------------ insertion orders derived from a sequence
 Rev(s)      == [i \in DOMAIN s |-> s[Len(s) + 1 - i]]
 Rot(s)      == LET h == Len(s) \div 2 IN SubSeq(s, h + 1, Len(s)) \o SubSeq(s, 1, h)
@@ -43,32 +30,59 @@ EvenOdd(s)  == LET Ev(i) == i % 2 = 0
                IN [i \in DOMAIN s |-> s[pick[i]]]
 Variants(s) == <<s, Rev(s), Rot(s), EvenOdd(s)>>
 
+\* outs = the outcome of the algorithm for each insertion order of Variants(es), computed once when the case
+\* state is created
+VARIABLES phase, hi, es, gs, outs          \* gs = the graph structure built for each insertion order
+vars == <<phase, hi, es, gs, outs>>
+
+InitMask == phase = "seed" /\ hi \in 0..(2 ^ HiBits - 1) /\ es = << >> /\ gs = << >> /\ outs = << >>
+NextMask == /\ phase = "seed" /\ phase' = "case" /\ UNCHANGED hi
+            /\ \E lo \in 0..(2 ^ LoBits - 1) : es' = EdgesOfMask(hi * (2 ^ LoBits) + lo)
+            /\ gs' = [v \in 1..4 |-> BuildGraph(Variants(es')[v])]
+            /\ outs' = [v \in 1..4 |-> TopologicalOrder(gs'[v])]
+
+RECURSIVE InjSeqs(_)
+InjSeqs(S) == {<< >>} \cup UNION {{<<x>> \o s : s \in InjSeqs(S \ {x})} : x \in S}
+InitSeq == phase = "seed" /\ hi \in 1..NP /\ es = << >> /\ gs = << >> /\ outs = << >>
+NextSeq == /\ phase = "seed" /\ phase' = "case" /\ UNCHANGED hi
+           /\ \E s \in InjSeqs(PairSet \ {Pairs[hi]}) : es' = <<Pairs[hi]>> \o s
+           /\ gs' = [v \in 1..4 |-> BuildGraph(Variants(es')[v])]
+           /\ outs' = [v \in 1..4 |-> TopologicalOrder(gs'[v])]
+
 \* ------------------------------------------------------------------ invariants (on the case states)
 Case == phase = "case"
 \* C16 (a), design level: the algorithm raises iff the graph is cyclic, and otherwise returns a topological
 \* order that is a permutation of the nodes -- for every insertion order tried
-AlgRefinesRef == Case => \A v \in DOMAIN Variants(es) : RefGraphOK(Variants(es)[v], AlgGraphRun(Variants(es)[v]))
+AlgRefinesRef == Case => LET E == EdgeSet(es) IN
+                   IF Cyclic(E) THEN \A v \in 1..4 : outs[v].raised
+                   ELSE \A v \in 1..4 : ~outs[v].raised /\ IsPermOf(outs[v].order, NodesOf(E)) /\ IsTopo(outs[v].order, E)
+\* (the same statement through the operator the trace specification uses)
+AlgRefinesRefOp == Case => RefGraphOK(es, outs[1])
 \* the built structure represents exactly the edge set, whatever the insertion order
-GraphRepresents == Case => \A v \in DOMAIN Variants(es) :
-                     LET g == BuildGraph(Variants(es)[v]) IN GraphWellFormed(g) /\ GraphEdges(g) = EdgeSet(es)
-                                                            /\ Range(g.nodes) = NodesOf(EdgeSet(es))
+GraphRepresents == Case => LET E == EdgeSet(es) IN \A v \in 1..4 :
+                     GraphWellFormed(gs[v]) /\ GraphEdges(gs[v]) = E /\ Range(gs[v].nodes) = NodesOf(E)
 \* sanity of the Ref layer: two definitions of "cyclic" agree, and acyclic = some permutation is a topological order
 Perms(S) == {s \in InjSeqs(S) : Len(s) = Cardinality(S)}
+PermsOf == [S \in SUBSET (1..N) |-> IF N <= 4 THEN Perms(S) ELSE {}]        \* evaluated once
 RefLaws == Case => LET E == EdgeSet(es) IN
              /\ Cyclic(E) = CyclicTC(E)
-             /\ (N <= 4 => (~Cyclic(E) <=> \E o \in Perms(NodesOf(E)) : IsTopo(o, E)))
-             /\ \A v \in DOMAIN Variants(es) : EdgeSet(Variants(es)[v]) = E
+             /\ (N <= 4 => (~Cyclic(E) <=> \E o \in PermsOf[NodesOf(E)] : IsTopo(o, E)))
+             /\ \A v \in 2..4 : EdgeSet(Variants(es)[v]) = E
 
 \* ------------------------------------------------------------------ emission (spec -> code)
 RECURSIVE Digits(_, _)
 Digits(s, i) == IF i > Len(s) THEN "" ELSE ToString(s[i]) \o Digits(s, i + 1)
-OutStr(s) == LET r == AlgGraphRun(s) IN IF r.raised THEN "!" ELSE "o" \o Digits(r.order, 1)
+OutStr(r) == IF r.raised THEN "!" ELSE "o" \o Digits(r.order, 1)
 EdgeStr(s) == Digits([i \in DOMAIN s |-> 10 * s[i][1] + s[i][2]], 1)
+\* (TLC wraps printed values at 80 columns: in mask mode the graph is printed as its mask, bit e-1 = Pairs[e])
+RECURSIVE MaskOf(_, _)
+MaskOf(s, i) == IF i > Len(s) THEN 0 ELSE 2 ^ (Index(Pairs, s[i]) - 1) + MaskOf(s, i + 1)
 EmitCase == (Case /\ Emit) =>
-  PrintT(<<"G", EdgeStr(es), IF Cyclic(EdgeSet(es)) THEN "cyclic" ELSE "dag",
-           OutStr(Variants(es)[1]), OutStr(Variants(es)[2]), OutStr(Variants(es)[3]), OutStr(Variants(es)[4])>>)
+  PrintT(<<"G", IF SeqMode THEN EdgeStr(es) ELSE "m" \o ToString(MaskOf(es, 1)), IF Cyclic(EdgeSet(es)) THEN "c" ELSE "d",
+           OutStr(outs[1]), OutStr(outs[2]), OutStr(outs[3]), OutStr(outs[4])>>)
 \* number of seed states of the two modes, and the insertion orders of a probe (cross-checked by the harness)
 Probe == <<<<1, 2>>, <<2, 3>>, <<3, 1>>, <<1, 3>>, <<2, 1>>>>
 ASSUME PrintT(<<"SEEDS", IF SeqMode THEN NP ELSE 2 ^ HiBits>>)
+ASSUME PrintT(<<"P", EdgeStr(Pairs)>>)
 ASSUME PrintT(<<"V", EdgeStr(Variants(Probe)[1]), EdgeStr(Variants(Probe)[2]), EdgeStr(Variants(Probe)[3]), EdgeStr(Variants(Probe)[4])>>)
 =============================================================================
